@@ -50,4 +50,47 @@ def build(ctx, tier="quick"):
     kinds["opt:cache_flag"] = const("cache", True)
     kinds["opt:order"] = const("order", True)
     kinds["opt:noorder"] = const("noorder", True)
-    return s, DeltaOracle(s, kinds)
+    return s, SequenceOracle(ctx, s, kinds)
+
+
+class SequenceOracle(DeltaOracle):
+    """O-value at every fold, and at acceptance the final output (objabs): the formatter must hand the sequence entry on
+    exactly as parsed - same keys, same values, same TYPES (True is not 1)"""
+
+    def __init__(self, ctx, spec, kinds):
+        super().__init__(spec, kinds)
+        self.ctx = ctx
+        self.finals = []
+
+    def on_accept(self, ex, final, steps):
+        if len(self.finals) < 60:
+            self.finals.append((final, ex.render([w for (w, t, v) in steps])))
+
+    def finish(self, ex):
+        import copy
+        from ..objabs import format_output, ShapeMismatch
+        from ..pyabs import PyRaise, LexUnknown, NonUniform
+        from ..core import AnalysisError
+        for final, wit in self.finals:
+            try:
+                out = format_output(self.ctx, [copy.deepcopy(final)], "sql", False)
+            except (PyRaise, ShapeMismatch) as e:
+                ex.add("O-final", "sequence: the output layer fails on a parsed sequence", str(e), wit)
+                continue
+            except (LexUnknown, NonUniform) as e:
+                raise AnalysisError(f"sequence fragment: output layer outside the interpreted subset: {e}")
+            self.checked += 1
+            if not (isinstance(out, list) and len(out) == 1 and _strict_eq(out[0], final)):
+                ex.add("O-final", "sequence: the final entry differs from the parsed options (values or their types)",
+                       f"parsed {final!r}, reported {out!r}"[:400], wit)
+
+
+def _strict_eq(a, b):
+    from ..pyabs import W
+    if isinstance(a, W) or isinstance(b, W):
+        return isinstance(a, W) and isinstance(b, W) and len(a.ex) == len(b.ex) and all(_strict_eq(x, y) for x, y in zip(a.ex, b.ex))
+    if isinstance(a, dict) and isinstance(b, dict):
+        return list(a) == list(b) and all(_strict_eq(a[k], b[k]) for k in a)
+    if isinstance(a, (list, tuple)) and isinstance(b, (list, tuple)):
+        return len(a) == len(b) and all(_strict_eq(x, y) for x, y in zip(a, b))
+    return type(a) is type(b) and a == b
